@@ -7,6 +7,19 @@ with `visit_connected_states` as a worklist loop. Specification (this file): `Ha
 `Reach` (inductive reflexive-transitive closure of "has a transition to"), `WellFormed`, `Trap`,
 `NoPath`, all written from the English statement, without reference to the worklist loop or to
 the order of the checks.
+
+Main results: `bfs_sound_complete`, `C09_iff` (+ `C09_iff_nonstrict`, `not_accepts_iff_rejects`,
+`C09_abstract`), `C09_strict` (+ `C09_strict_reason`, `mem_trapStates`, `mem_noPathToFinal`,
+`check_of_wellFormed`), `mem_edges` (the graph the checks see is the specified "has a transition
+to" relation, including the `from_.any()` expansion). All hold for every definition: any number of
+states, any transition multiset, indices in or out of range.
+
+Trusted: that `check` is what the library does — established by the correspondence check
+(`harness/props/c09.py`: exhaustive enumeration of small definitions against the real metaclass
+and against an independent Warshall-closure oracle), not by proof. One deliberate reading of the
+statement: a class with neither states nor events is accepted unchecked (`C09_abstract`; it is
+the library's notion of an abstract base and cannot be instantiated), so `C09_iff` is stated for
+classes that declare something.
 -/
 namespace SMV.Validate
 open ClassDef
@@ -445,6 +458,14 @@ def exWarn : ClassDef :=
 
 example : check exWarn = .ok false [[2], [2]] := by decide
 example : check { exWarn with strict := true } = .invalid .trap [2] := by decide
+/-- the hypothesis of `C09_strict` is satisfiable by a definition with issues -/
+example : WellFormed exWarn :=
+  (C09_iff_nonstrict exWarn (by simp [Abstract, exWarn]) rfl).mp ⟨false, [[2], [2]], by decide⟩
+example : rejects { exWarn with strict := true } := ⟨.trap, [2], by decide⟩
+/-- a cycle: states 1 and 2 reach each other but no final state, and neither is a trap -/
+example : check { states := [⟨true, false⟩, ⟨false, false⟩, ⟨false, false⟩, ⟨false, true⟩],
+                  events := [[.edge 0 1 false, .edge 1 2 false, .edge 2 1 false, .edge 0 3 false]] }
+    = .ok false [[1, 2]] := by decide
 example : Trap exWarn 2 := (mem_trapStates exWarn 2).mp (by decide)
 example : NoPath exWarn 2 := (mem_noPathToFinal exWarn 2).mp (by decide)
 
